@@ -14,7 +14,10 @@ KIT_C_END
 #ifndef NCH
 #define NCH 2
 #endif
-#define MAXB (4*NCH)
+#ifndef MAXW
+#define MAXW 4          /* widest character admitted in the pre-state (restricting it shrinks the size case split) */
+#endif
+#define MAXB (MAXW*NCH)
 
 /* RFC 3629 decoder: returns the width (1..4) of the well-formed sequence at p (avail bytes), 0 if ill-formed */
 static int rfc_dec(const unsigned char *p, int avail, unsigned *cp) {
@@ -108,11 +111,14 @@ void harness(void) {
   __CPROVER_assume(i >= -1 && i <= NCH + 1);
   unsigned c = (unsigned) nondet_uword();
   __CPROVER_assume(is_scalar(c));
+#if MAXW < 4
+  __CPROVER_assume(sexp_utf8_char_byte_count(c) <= MAXW);
+#endif
   sexp r = sexp_string_utf8_index_set(ctx, SEXP_FALSE, 3, s, sexp_make_fixnum(i), sexp_make_character(c));
   if (i >= 0 && i < n) {
     KIT_ASSERT(r == SEXP_VOID, "string-set! in range succeeds");
     unsigned now[NCH + 2];
-    int m = dec_result(s, now, NCH + 1, MAXB);
+    int m = dec_result(s, now, NCH + 1, MAXB + 4);
     KIT_ASSERT(m == n, "string-set! keeps the length and leaves well-formed UTF-8");
     for (int k = 0; k < NCH; k++) if (k < n) KIT_ASSERT(now[k] == (k == i ? c : cps[k]), "string-set! replaces exactly element i");
     KIT_ASSERT(sexp_string_data(s)[sexp_string_size(s)] == 0 || sexp_string_bytes(s) == sexp_string_bytes(other), "a re-allocated store is NUL terminated");
